@@ -3,13 +3,14 @@
 import json, os, glob, subprocess
 V = os.path.dirname(os.path.dirname(os.path.abspath(__file__)))
 checks = []
+READY = set(open(os.path.join(V, 'props', 'READY')).read().split())
 for p in sorted(glob.glob(os.path.join(V, "props", "C[0-9]*.json"))):
     if p.endswith(".hashes.json"):
         continue
     c = json.load(open(p))
     pid = c["id"]
-    if c.get("disabled") or not c.get("ready"):
-        continue   # "ready": true is set by the integrator once the check is reviewed and green
+    if c.get("disabled") or pid not in READY:
+        continue   # props/READY is maintained by the integrator: one property id per line, added once the check is reviewed and green
     checks.append({
         "property_id": pid,
         "quick_cmd": "./check %s --tier quick" % pid,
